@@ -16,7 +16,7 @@ import z3
 from . import sym
 from .sym import Inapplicable, PathEnd
 
-Z3_TIMEOUT_MS = int(os.environ.get("VERIF_Z3_TIMEOUT_MS", "10000"))
+Z3_TIMEOUT_MS = int(os.environ.get("VERIF_Z3_TIMEOUT_MS", "20000"))
 BRANCH_TIMEOUT_MS = 2000
 MAX_PATHS = int(os.environ.get("VERIF_MAX_PATHS", "4000"))
 CVC5 = "/usr/bin/cvc5"
@@ -228,7 +228,7 @@ def _cvc5_check(vc, timeout_ms):
     if not os.path.exists(CVC5):
         return "unknown", "cvc5 not installed"
     try:
-        txt = "(set-logic ALL)\n" + _smt2(vc)
+        txt = "(set-logic ALL)\n" + _smt2(vc).replace("seq.nth_i", "seq.nth").replace("seq.nth_u", "seq.nth")
         with tempfile.NamedTemporaryFile("w", suffix=".smt2", delete=False, dir="/var/tmp") as f:
             f.write(txt)
             fn = f.name
@@ -253,7 +253,7 @@ def discharge(vc, timeout_ms=None, use_cvc5=True):
     full = timeout_ms or Z3_TIMEOUT_MS
     vc.backend = "z3-" + z3.get_version_string()
     note0 = vc.note
-    vc.status, vc.model, vc.note = _z3_check(vc, min(2000, full))
+    vc.status, vc.model, vc.note = _z3_check(vc, min(5000, full))
     vc.note = (note0 + " " + vc.note).strip()
     if vc.status == "unknown" and use_cvc5:
         st, note = _cvc5_check(vc, full)
@@ -268,7 +268,7 @@ def discharge(vc, timeout_ms=None, use_cvc5=True):
                 vc.status, vc.backend, vc.note = "refuted", "cvc5-1.0.3", note
         else:
             vc.note += " / " + note
-    if vc.status == "unknown" and full > 2000:
+    if vc.status == "unknown" and full > 5000:
         st, model, note = _z3_check(vc, full)
         if st != "unknown":
             vc.status, vc.model, vc.note = st, model, ""
